@@ -15,6 +15,7 @@ structure Cfg where
   closable : List Nat := []
   progs : List (List Nat) := []
   sig : List (Nat × Option Nat) := []   -- (handler sender, victim: none = loop thread)
+  spin : Nat := 0       -- once per run the closing loop thread takes this many uv__async_spin iterations in a row
   stops : Nat := 0      -- how many uv_stop() calls from inside async callbacks may happen in one run
   forks : Nat := 0      -- how many fork + uv_loop_fork (continue in the child) may happen in one run
   eintr : Nat := 0      -- how many EINTR answers the environment may give in one run
@@ -25,6 +26,7 @@ structure DS where
   k : List Nat    -- per sender: index of its next send
   ei : Nat := 0   -- EINTR answers left
   fk : Nat := 0   -- forks left
+  sp : Nat := 0   -- spin bursts left (0/1)
   st : Nat := 0   -- uv_stop calls left
   sf : Bool := false   -- loop->stop_flag: no effect on the async machinery (not part of the model); uv_run returns when
                        -- uv__async_io is done, resets it, and the application runs the loop again
@@ -52,13 +54,14 @@ def parseCfg (ws : List String) : Cfg :=
     | ["eintr", v] => { c with eintr := nat! v }
     | ["fork", v] => { c with forks := nat! v }
     | ["stop", v] => { c with stops := nat! v }
+    | ["spin", v] => { c with spin := nat! v }
     | ["cap", v] => { c with cap := if v = "-" then none else some (nat! v) }
     | ["sig", v] => { c with sig := if v = "-" then [] else (v.splitOn ",").map parseSig }
     | _ => c) {}
 
 def initDS (c : Cfg) : DS :=
   { s := match c.cap with | none => init c.nh c.progs.length | some n => init c.nh c.progs.length (n - 1),
-    k := c.progs.map fun _ => 0, ei := c.eintr, fk := c.forks, st := c.stops }
+    k := c.progs.map fun _ => 0, ei := c.eintr, fk := c.forks, st := c.stops, sp := if c.spin > 0 then 1 else 0 }
 
 def spcName : SPc → String
   | .idle => "idle" | .load => "load" | .inc => "inc" | .xchg => "xchg" | .write => "write" | .dec => "dec"
@@ -91,6 +94,7 @@ def enabledToks (c : Cfg) (d : DS) : List String :=
     ++ (if lok && enabled s .loop then ["l"] else [])
     ++ (if lok && d.fk > 0 && enabled s .fork then ["k"] else [])
     ++ (if lok && d.st > 0 && !d.sf && (match s.lpc with | .inCb _ => true | _ => false) then ["x"] else [])
+    ++ (if lok && d.sp > 0 && (match s.lpc with | .closeSpin h _ => (s.hs h).busy ≠ 0 | _ => false) then ["p"] else [])
     ++ ((c.closable.filter fun h => lok && enabled s (.close h)).map fun h => s!"c{h}")
     ++ (if lok && enabled s .closeCbs && (List.range s.nh).any (fun h => (s.hs h).unlinked && !(s.hs h).freed) then ["f"] else [])
 
@@ -105,7 +109,7 @@ def stateStr (c : Cfg) (d : DS) : String :=
     let x := s.snd[t]?.getD ({} : Sender)
     s!"t{t}:{spcName x.pc},h{x.h},k{d.k.getD t 0},q{x.seq}"
   s!"efd={s.efd} lpc={lpcName s.lpc} q={listStr s.queue} hl={listStr s.handles} | "
-    ++ " ".intercalate hs ++ " | " ++ " ".intercalate ts ++ s!" | ei={d.ei} fk={d.fk} st={d.st} sf={if d.sf then 1 else 0} en=" ++ ",".intercalate (enabledToks c d)
+    ++ " ".intercalate hs ++ " | " ++ " ".intercalate ts ++ s!" | ei={d.ei} fk={d.fk} st={d.st} sf={if d.sf then 1 else 0} sp={d.sp} en=" ++ ",".intercalate (enabledToks c d)
 
 /-- apply one token; returns the effect text -/
 def applyTok (c : Cfg) (d : DS) (tok : String) : Option (DS × String) :=
@@ -121,6 +125,8 @@ def applyTok (c : Cfg) (d : DS) (tok : String) : Option (DS × String) :=
       | .closeStore h _ => s!"store h{h}"
       | .closeSpin h _ => s!"spin h{h} unlink"
     (step? s .loop).map fun s' => ({ d with s := s', sf := if s'.lpc = .idle then false else d.sf }, eff)
+  else if tok = "p" then   -- N spin iterations with busy ≠ 0: the model's closeSpin step is disabled, nothing changes
+    some ({ d with sp := d.sp - 1 }, "spinburst")
   else if tok = "x" then
     some ({ d with st := d.st - 1, sf := true }, "stop")
   else if tok = "k" then
